@@ -6,6 +6,11 @@ check dominance and flag->raise, R03.3 first-write vs append state, R03.4
 in-place SIZE update, R03.5 append position, R03.6 overwrite.
 """
 import ast
+import copy
+import itertools
+import os
+import re
+import string
 
 from vcheck import cfront
 from vcheck.cfg import eval_test
@@ -69,6 +74,577 @@ def run(chk):
     r03_5(chk, cfun)
     r03_6(chk, sf_write, cfun)
     r03_7(chk, repo, Rec_write)
+
+
+# ---------------------------------------------------------------------------
+# A small path-sensitive symbolic executor for Python functions (used by R03.1a, R03.2c-e, R03.3, R03.4a, R03.6, R03.7).
+#
+# Every path of a function (each loop body taken zero times or once) is walked with forward substitution: the value of a
+# local / `self.x` / `self.x['k']` is an expression over the symbols the ROOT function sees on entry (its parameters and the
+# attributes of self as they were on entry).  Calls to methods of the same class and to functions of the same module are
+# followed (parameters bound to the argument expressions, stores to `self.x` kept), so extracting or inlining a helper,
+# introducing or removing a temporary, early return vs if/else, flag-and-break vs return-the-message all give the same
+# paths.  A path carries: the branch outcomes taken (`facts`), the calls made in order with their argument expressions
+# (`events`), the final attribute values (`heap`) and how it ends (return value / raise).  Rules are then stated over paths.
+# ---------------------------------------------------------------------------
+class _TooBig(Exception):
+    """path enumeration exceeded its budget: the rule that asked has no verdict"""
+
+
+_NN = "__notnone__"
+_COMPS = (ast.ListComp, ast.SetComp, ast.DictComp, ast.GeneratorExp)
+
+
+def _walk_expr(e):
+    """breadth-first walk that does not enter lambdas / comprehensions (their calls run in another scope)"""
+    todo = [e]
+    i = 0
+    while i < len(todo):
+        x = todo[i]
+        i += 1
+        yield x
+        for c in ast.iter_child_nodes(x):
+            if not isinstance(c, (ast.Lambda,) + _COMPS + (ast.FunctionDef, ast.AsyncFunctionDef, ast.ClassDef)):
+                todo.append(c)
+
+
+def _hkey(n):
+    """key of an lvalue rooted at self (self.a, self.a.b, self.a['k']) or None"""
+    x = n
+    while True:
+        if isinstance(x, ast.Attribute):
+            x = x.value
+        elif isinstance(x, ast.Subscript) and isinstance(x.slice, ast.Constant):
+            x = x.value
+        else:
+            break
+    if isinstance(x, ast.Name) and x.id == "self" and x is not n:
+        return norm(n)
+    return None
+
+
+class _Sub(ast.NodeTransformer):
+    def __init__(self, loc, heap):
+        self.loc, self.heap = loc, heap
+
+    def visit_Name(self, n):
+        v = self.loc.get(n.id) if isinstance(n.ctx, ast.Load) else None
+        return copy.deepcopy(v) if v is not None else n
+
+    def _h(self, n):
+        if isinstance(n.ctx, ast.Load):
+            k = _hkey(n)
+            if k is not None and k in self.heap:
+                return copy.deepcopy(self.heap[k])
+        return self.generic_visit(n)
+
+    visit_Attribute = visit_Subscript = _h
+
+    def visit_Lambda(self, n):
+        return n
+
+    def _comp(self, n):
+        bound = {x.id for g in n.generators for x in ast.walk(g.target) if isinstance(x, ast.Name)}
+        return _Sub({k: v for k, v in self.loc.items() if k not in bound}, self.heap).generic_visit(n)
+
+    visit_ListComp = visit_SetComp = visit_GeneratorExp = visit_DictComp = _comp
+
+
+def _is_none(v):
+    return isinstance(v, ast.Constant) and v.value is None
+
+
+def _nonempty_str(v):
+    """an expression that certainly yields a non-empty string"""
+    if isinstance(v, ast.Constant):
+        return isinstance(v.value, str) and v.value != ""
+    if isinstance(v, ast.BinOp) and isinstance(v.op, (ast.Mod, ast.Add)):
+        return _nonempty_str(v.left) or (isinstance(v.op, ast.Add) and _nonempty_str(v.right))
+    if isinstance(v, ast.JoinedStr):
+        return any(_nonempty_str(x) for x in v.values)
+    if isinstance(v, ast.Call) and isinstance(v.func, ast.Attribute) and v.func.attr == "format":
+        return _nonempty_str(v.func.value)
+    return False
+
+
+def _is_notnone(v):
+    if isinstance(v, ast.Constant):
+        return v.value is not None
+    if isinstance(v, (ast.JoinedStr, ast.Tuple, ast.List, ast.Dict, ast.Set, ast.Compare, ast.BinOp) + _COMPS):
+        return True
+    if isinstance(v, ast.Name) and v.id == _NN:
+        return True
+    return _nonempty_str(v)
+
+
+_CMP = {ast.Eq: lambda a, b: a == b, ast.NotEq: lambda a, b: a != b, ast.Lt: lambda a, b: a < b, ast.LtE: lambda a, b: a <= b,
+        ast.Gt: lambda a, b: a > b, ast.GtE: lambda a, b: a >= b, ast.In: lambda a, b: a in b, ast.NotIn: lambda a, b: a not in b}
+
+
+def _atom(e):
+    """(canonical key, polarity) of an atomic test: `a != b` is the atom eq(a,b) with polarity False, `a >= b` is lt(a,b) False ..."""
+    if isinstance(e, ast.UnaryOp) and isinstance(e.op, ast.Not):
+        k, p = _atom(e.operand)
+        return k, not p
+    if isinstance(e, ast.Compare) and len(e.ops) == 1:
+        l, r, op = e.left, e.comparators[0], e.ops[0]
+        tl, tr = norm(l), norm(r)
+        if isinstance(op, (ast.Is, ast.IsNot)) or (isinstance(op, (ast.Eq, ast.NotEq)) and (_is_none(l) or _is_none(r))):
+            return ("is",) + tuple(sorted((tl, tr))), isinstance(op, (ast.Is, ast.Eq))
+        if isinstance(op, (ast.Eq, ast.NotEq)):
+            return ("eq",) + tuple(sorted((tl, tr))), isinstance(op, ast.Eq)
+        if isinstance(op, (ast.Lt, ast.GtE)):
+            return ("lt", tl, tr), isinstance(op, ast.Lt)
+        if isinstance(op, (ast.Gt, ast.LtE)):
+            return ("lt", tr, tl), isinstance(op, ast.Gt)
+        if isinstance(op, (ast.In, ast.NotIn)):
+            return ("in", tl, tr), isinstance(op, ast.In)
+    return ("truth", norm(e)), True
+
+
+def _implied(e, outcome, where):
+    """atomic facts that follow from test e having the given outcome"""
+    if isinstance(e, ast.UnaryOp) and isinstance(e.op, ast.Not):
+        return _implied(e.operand, not outcome, where)
+    if isinstance(e, ast.BoolOp) and (isinstance(e.op, ast.And) == bool(outcome)):
+        out = []
+        for v in e.values:
+            out.extend(_implied(v, outcome, where))
+        return out
+    k, p = _atom(e)
+    return [(k, outcome if p else (not outcome), e, where)]
+
+
+class _Fold(ast.NodeTransformer):
+    """replace expressions known (from an equality fact) to equal a constant, fold constant subscripts"""
+
+    def __init__(self, eqs):
+        self.eqs = eqs
+
+    def generic_visit(self, n):
+        if isinstance(n, (ast.Name, ast.Attribute, ast.Subscript)) and isinstance(getattr(n, "ctx", None), ast.Load):
+            t = norm(n)
+            if t in self.eqs:
+                return copy.deepcopy(self.eqs[t])
+        n = super().generic_visit(n)
+        if isinstance(n, ast.Subscript) and isinstance(n.value, ast.Constant) and isinstance(n.slice, ast.Constant) \
+                and isinstance(n.value.value, (str, tuple)) and isinstance(n.slice.value, int):
+            try:
+                return ast.Constant(value=n.value.value[n.slice.value])
+            except IndexError:
+                return n
+        return n
+
+
+def _with_eqs(e, facts):
+    eqs = {}
+    for k, v, x, _ in facts:
+        if k[0] == "eq" and v and isinstance(x, ast.Compare):
+            l, r = x.left, x.comparators[0]
+            if isinstance(r, ast.Constant) and not isinstance(l, ast.Constant):
+                eqs[norm(l)] = r
+            elif isinstance(l, ast.Constant) and not isinstance(r, ast.Constant):
+                eqs[norm(r)] = l
+    return _Fold(eqs).visit(copy.deepcopy(e))
+
+
+def _decide(e, facts):
+    """three-valued truth of an (already substituted) test under the facts of the path"""
+    if isinstance(e, ast.Constant):
+        return bool(e.value)
+    if isinstance(e, ast.UnaryOp) and isinstance(e.op, ast.Not):
+        v = _decide(e.operand, facts)
+        return None if v is None else (not v)
+    if isinstance(e, ast.BoolOp):
+        vals = [_decide(v, facts) for v in e.values]
+        if isinstance(e.op, ast.And):
+            if any(v is False for v in vals):
+                return False
+            if all(v is True for v in vals):
+                return True
+        else:
+            if any(v is True for v in vals):
+                return True
+            if all(v is False for v in vals):
+                return False
+    elif isinstance(e, ast.Compare) and len(e.ops) == 1:
+        l, r, op = e.left, e.comparators[0], e.ops[0]
+        if isinstance(op, (ast.Is, ast.IsNot, ast.Eq, ast.NotEq)) and (_is_none(l) or _is_none(r)):
+            o = r if _is_none(l) else l
+            res = True if _is_none(o) else (False if _is_notnone(o) else None)
+            if res is not None:
+                return res if isinstance(op, (ast.Is, ast.Eq)) else (not res)
+        elif isinstance(l, ast.Constant) and isinstance(r, ast.Constant) and type(op) in _CMP:
+            try:
+                return bool(_CMP[type(op)](l.value, r.value))
+            except TypeError:
+                return None
+    elif _nonempty_str(e) or isinstance(e, ast.JoinedStr):
+        return True if _nonempty_str(e) else None
+    key, pol = _atom(e)
+    for k, v, _, _ in reversed(facts):
+        if k == key:
+            return v if pol else (not v)
+    return None
+
+
+class _St:
+    """state of one path: heap (self.x -> expr), facts (branch outcomes), events (calls / stores in order)"""
+    __slots__ = ("heap", "facts", "events")
+
+    def __init__(self, heap=None, facts=(), events=()):
+        self.heap = heap if heap is not None else {}
+        self.facts = facts
+        self.events = events
+
+    def evolve(self, heap=None, facts=None, events=None):
+        return _St(self.heap if heap is None else heap, self.facts if facts is None else facts,
+                   self.events if events is None else events)
+
+
+class _PX:
+    def __init__(self, repo, stop=(), want=None, maxdepth=4, budget=120000):
+        self.repo = repo
+        self.stop = set(stop)       # callee names that are not followed (the rule speaks about the call itself)
+        self.want = want            # optional predicate(FuncInfo): follow only these callees
+        self.maxdepth = maxdepth
+        self.budget = budget
+        self._n = itertools.count()
+
+    # -- callee resolution ------------------------------------------------
+    def resolve(self, fi, call):
+        d = dotted_name(call.func)
+        if not d:
+            return None
+        if d.startswith("self.") and d.count(".") == 1 and fi.cls:
+            return self.repo.funcs.get("%s.%s.%s" % (fi.module.name, fi.cls, d.split(".")[1]))
+        if "." not in d:
+            f = self.repo.funcs.get("%s.%s" % (fi.module.name, d))
+            return f if f is not None and f.cls is None else None
+        return None
+
+    def inlinable(self, fi, call, stack):
+        callee = self.resolve(fi, call)
+        if callee is None or callee.name in self.stop or callee.qualname in stack or len(stack) > self.maxdepth:
+            return None
+        if self.want is not None and not self.want(callee):
+            return None
+        if rules.is_generator(callee.node) or any(isinstance(a, ast.Starred) for a in call.args) \
+                or any(k.arg is None for k in call.keywords):
+            return None
+        return callee
+
+    def fresh(self):
+        return ast.Name(id="__unk%d__" % next(self._n), ctx=ast.Load())
+
+    def subst(self, e, loc, heap):
+        return _Sub(loc, heap).visit(copy.deepcopy(e))
+
+    def bind(self, callee, call, loc, heap):
+        ps = [p for p in callee.params if not p.startswith("*")]
+        if callee.cls and ps and isinstance(call.func, ast.Attribute):
+            ps = ps[1:]
+        cl = {}
+        for p, a in zip(ps, call.args):
+            cl[p] = self.subst(a, loc, heap)
+        for k in call.keywords:
+            if k.arg in ps:
+                cl[k.arg] = self.subst(k.value, loc, heap)
+        for p in ps:
+            if p not in cl:
+                cl[p] = copy.deepcopy(callee.defaults[p]) if p in callee.defaults else self.fresh()
+        return cl
+
+    # -- expressions ------------------------------------------------------
+    def note(self, e, fi, loc, st):
+        evs = []
+        for c in _walk_expr(e):
+            if isinstance(c, ast.Call):
+                f = c.func
+                evs.append(dict(kind="call", name=call_name(c), dotted=dotted_name(f),
+                                recv=self.subst(f.value, loc, st.heap) if isinstance(f, ast.Attribute) else None,
+                                args=[self.subst(a, loc, st.heap) for a in c.args],
+                                kw={k.arg: self.subst(k.value, loc, st.heap) for k in c.keywords if k.arg},
+                                fn=fi, line=getattr(c, "lineno", 0), nfacts=len(st.facts), nev=len(st.events)))
+        if not evs:
+            return st
+        evs.reverse()       # inner calls are evaluated before the call that takes them as argument
+        return st.evolve(events=st.events + tuple(evs))
+
+    def ev(self, e, fi, loc, st, stack):
+        """[(value | None, state, raised)]: value of e on each way through the helpers it calls"""
+        st = self.note(e, fi, loc, st)
+        out = []
+        work = [(copy.deepcopy(e), loc, st)]
+        while work:
+            e1, loc1, st1 = work.pop()
+            calls = [x for x in _walk_expr(e1) if isinstance(x, ast.Call)]
+            pick = None
+            for i in range(len(calls) - 1, -1, -1):
+                callee = self.inlinable(fi, calls[i], stack)
+                if callee is not None:
+                    pick = (i, callee)
+                    break
+            if pick is None:
+                out.append((self.subst(e1, loc1, st1.heap), st1, False))
+                continue
+            i, callee = pick
+            cloc = self.bind(callee, calls[i], loc1, st1.heap)
+            for kind, val, st2 in self.run(callee, cloc, st1, stack + (callee.qualname,)):
+                if kind == "raise":
+                    out.append((None, st2, True))
+                    continue
+                ph = "__ret%d__" % next(self._n)
+                e2 = copy.deepcopy(e1)
+                tgt = [x for x in _walk_expr(e2) if isinstance(x, ast.Call)][i]
+                if e2 is tgt:
+                    e2 = ast.Name(id=ph, ctx=ast.Load())
+                else:
+                    for p in ast.walk(e2):
+                        for fld, v in ast.iter_fields(p):
+                            if v is tgt:
+                                setattr(p, fld, ast.Name(id=ph, ctx=ast.Load()))
+                            elif isinstance(v, list):
+                                for j, x in enumerate(v):
+                                    if x is tgt:
+                                        v[j] = ast.Name(id=ph, ctx=ast.Load())
+                loc2 = dict(loc1)
+                loc2[ph] = val
+                work.append((e2, loc2, st2))
+        return out
+
+    # -- stores -------------------------------------------------------------
+    def assign(self, t, val, fi, loc, st, line):
+        if isinstance(t, ast.Name):
+            loc = dict(loc)
+            loc[t.id] = val
+            return loc, st
+        if isinstance(t, (ast.Tuple, ast.List)):
+            if isinstance(val, (ast.Tuple, ast.List)) and len(val.elts) == len(t.elts) \
+                    and not any(isinstance(x, ast.Starred) for x in list(val.elts) + list(t.elts)):
+                parts = list(val.elts)
+            else:
+                parts = [ast.Subscript(value=copy.deepcopy(val), slice=ast.Constant(value=i), ctx=ast.Load())
+                         for i in range(len(t.elts))]
+            for tt, p in zip(t.elts, parts):
+                loc, st = self.assign(tt.value if isinstance(tt, ast.Starred) else tt, p, fi, loc, st, line)
+            return loc, st
+        k = _hkey(t)
+        if k is not None:
+            heap = {h: v for h, v in st.heap.items() if not (h.startswith(k + ".") or h.startswith(k + "["))}
+            heap[k] = val
+            ev_ = dict(kind="store", name=k, value=val, fn=fi, line=line, nfacts=len(st.facts), nev=len(st.events))
+            return loc, st.evolve(heap=heap, events=st.events + (ev_,))
+        return loc, st
+
+    # -- statements -----------------------------------------------------------
+    def stmt(self, fi, n, loc, st, stack):
+        """[(loc, state, raised)] after the simple statement of CFG node n"""
+        a = n.ast
+        line = getattr(a, "lineno", 0)
+        if isinstance(a, (ast.Assign, ast.AnnAssign)):
+            if a.value is None:
+                return [(loc, st, False)]
+            out = []
+            for val, st2, raised in self.ev(a.value, fi, loc, st, stack):
+                if raised:
+                    out.append((loc, st2, True))
+                    continue
+                loc2 = loc
+                for t in (a.targets if isinstance(a, ast.Assign) else [a.target]):
+                    loc2, st2 = self.assign(t, val, fi, loc2, st2, line)
+                out.append((loc2, st2, False))
+            return out
+        if isinstance(a, ast.AugAssign):
+            out = []
+            for val, st2, raised in self.ev(a.value, fi, loc, st, stack):
+                if raised:
+                    out.append((loc, st2, True))
+                    continue
+                cur = copy.deepcopy(a.target)
+                for x in ast.walk(cur):
+                    if hasattr(x, "ctx"):
+                        x.ctx = ast.Load()
+                cur = self.subst(cur, loc, st2.heap)
+                new = ast.BinOp(left=cur, op=copy.deepcopy(a.op), right=val)
+                loc2, st3 = self.assign(a.target, new, fi, loc, st2, line)
+                out.append((loc2, st3, False))
+            return out
+        if isinstance(a, ast.Expr):
+            return [(loc, st2, raised) for _, st2, raised in self.ev(a.value, fi, loc, st, stack)]
+        if isinstance(a, ast.Delete):
+            heap = dict(st.heap)
+            loc2 = dict(loc)
+            for t in a.targets:
+                k = _hkey(t)
+                if k is not None:
+                    heap[k] = self.fresh()
+                elif isinstance(t, ast.Name):
+                    loc2[t.id] = self.fresh()
+            return [(loc2, st.evolve(heap=heap), False)]
+        return [(loc, st, False)]
+
+    # -- paths ----------------------------------------------------------------
+    def branch(self, val, st, where):
+        """[(label, state)] for the outcomes of a test that are consistent with the path so far"""
+        val = _with_eqs(val, st.facts)
+        d = _decide(val, st.facts)
+        out = []
+        for lab in ("T", "F"):
+            want = lab == "T"
+            if d is None:
+                out.append((lab, st.evolve(facts=st.facts + tuple(_implied(val, want, where)))))
+            elif d == want:
+                out.append((lab, st))
+        return out
+
+    def run(self, fi, loc, st=None, stack=None):
+        """[(kind, value, state)] with kind 'return' | 'raise' for every path through fi"""
+        st = st or _St()
+        stack = stack or (fi.qualname,)
+        cfg = cfg_of(fi)
+        out = []
+        work = [(cfg.entry, loc, st, ())]
+        while work:
+            n, loc, st, vis = work.pop()
+            self.budget -= 1
+            if self.budget < 0:
+                raise _TooBig()
+            if n is cfg.exit:
+                out.append(("return", ast.Constant(value=None), st))
+                continue
+            if n is cfg.raise_exit:
+                out.append(("raise", None, st))
+                continue
+            succ = cfg.succ(n)
+            normal = [(m, labs) for m, labs in succ if labs - {"exc"}]
+            handlers = [m for m, labs in succ if "exc" in labs]
+            where = (fi, n.lineno)
+
+            def raised(st_):
+                if handlers:
+                    for h in handlers:
+                        work.append((h, loc, st_, vis))
+                else:
+                    out.append(("raise", None, st_))
+
+            k = n.kind
+            if k == "return":
+                if n.ast.value is None:
+                    out.append(("return", ast.Constant(value=None), st))
+                else:
+                    for val, st2, r in self.ev(n.ast.value, fi, loc, st, stack):
+                        if r:
+                            raised(st2)
+                        else:
+                            out.append(("return", val, st2))
+            elif k == "raise":
+                st2 = self.note(n.ast, fi, loc, st) if n.ast.exc is not None else st
+                raised(st2)
+            elif k == "branch" or (k == "loop" and isinstance(n.ast, ast.While)):
+                again = k == "loop" and vis.count(n.id) >= 1
+                vis2 = vis + (n.id,) if k == "loop" else vis
+                for val, st2, r in self.ev(n.ast.test, fi, loc, st, stack):
+                    if r:
+                        raised(st2)
+                        continue
+                    for lab, st3 in ([("F", st2)] if again else self.branch(val, st2, where)):
+                        for m, labs in normal:
+                            if lab in labs:
+                                work.append((m, loc, st3, vis2))
+            elif k == "loop":
+                a = n.ast
+                again = vis.count(n.id) >= 1
+                for itv, st2, r in self.ev(a.iter, fi, loc, st, stack):
+                    if r:
+                        raised(st2)
+                        continue
+                    for m, labs in normal:
+                        if "F" in labs:
+                            work.append((m, loc, st2, vis + (n.id,)))
+                        if "T" in labs and not again:
+                            work.append((m, self.bind_for(a, itv, loc, n.id), st2, vis + (n.id,)))
+            elif k == "with":
+                loc2, st2 = loc, st
+                dead = False
+                for it in n.ast.items:
+                    res = self.ev(it.context_expr, fi, loc2, st2, stack)
+                    val, st2, r = res[0]        # context managers are not forked on
+                    if r:
+                        raised(st2)
+                        dead = True
+                        break
+                    if it.optional_vars is not None:
+                        loc2, st2 = self.assign(it.optional_vars, val, fi, loc2, st2, n.lineno)
+                if not dead:
+                    for m, labs in normal:
+                        work.append((m, loc2, st2, vis))
+            elif k == "stmt":
+                for loc2, st2, r in self.stmt(fi, n, loc, st, stack):
+                    if r:
+                        raised(st2)
+                    else:
+                        for m, labs in normal:
+                            work.append((m, loc2, st2, vis))
+            else:       # entry, try, handler, def
+                loc2 = loc
+                if k == "handler" and n.ast.name:
+                    loc2 = dict(loc)
+                    loc2[n.ast.name] = self.fresh()
+                for m, labs in normal:
+                    work.append((m, loc2, st, vis))
+        return out
+
+    def bind_for(self, a, itv, loc, nid):
+        idx = ast.Name(id="__i%d__" % nid, ctx=ast.Load())
+
+        def elem(x):
+            return ast.Subscript(value=copy.deepcopy(x), slice=copy.deepcopy(idx), ctx=ast.Load())
+
+        t = a.target
+        loc = dict(loc)
+        fn = call_name(itv) if isinstance(itv, ast.Call) and isinstance(itv.func, ast.Name) else None
+        if fn == "zip" and isinstance(t, (ast.Tuple, ast.List)) and len(t.elts) == len(itv.args) \
+                and all(isinstance(x, ast.Name) for x in t.elts):
+            for x, src in zip(t.elts, itv.args):
+                loc[x.id] = elem(src)
+        elif fn == "enumerate" and isinstance(t, (ast.Tuple, ast.List)) and len(t.elts) == 2 and len(itv.args) == 1 \
+                and all(isinstance(x, ast.Name) for x in t.elts):
+            loc[t.elts[0].id] = idx
+            loc[t.elts[1].id] = elem(itv.args[0])
+        elif fn == "range" and isinstance(t, ast.Name) and len(itv.args) == 1:
+            loc[t.id] = idx
+        elif isinstance(t, ast.Name):
+            loc[t.id] = elem(itv)
+        else:
+            for x in ast.walk(t):
+                if isinstance(x, ast.Name):
+                    loc[x.id] = self.fresh()
+        return loc
+
+
+def _fact(st, pred, upto=None):
+    """value of the last fact (before position `upto`) whose key satisfies pred, or None"""
+    for k, v, _, _ in reversed(st.facts[:upto] if upto is not None else st.facts):
+        if pred(k):
+            return v
+    return None
+
+
+def _is_none_of(text):
+    """predicate for the atom `<text> is None`"""
+    return lambda k: k[0] == "is" and set(k[1:]) == {"None", text}
+
+
+def _calls(st, name):
+    return [e for e in st.events if e["kind"] == "call" and e["name"] == name]
+
+
+def _sum_terms(e):
+    """sorted texts of the terms of a sum (a + b + c), so that a+b and b+a compare equal"""
+    if isinstance(e, ast.BinOp) and isinstance(e.op, ast.Add):
+        return sorted(_sum_terms(e.left) + _sum_terms(e.right))
+    return [norm(e)]
 
 
 # ---------------------------------------------------------------------------
